@@ -1,6 +1,6 @@
 //! Driver 6: capacity boundary families.
 //!
-//! For every fixed capacity in the code under test (CFF hint map 96 edges / 96 stem hints / 12 mask bytes,
+//! For every fixed capacity in the code under test (CFF hint map 192 edges (96 before fix 3a05afb) / 96 stem hints / 12 mask bytes,
 //! CFF operand stack 48 / CFF2 513, subr nesting limit 10, TrueType value stack / storage / function and
 //! instruction definitions / call stack 32 / twilight points / loop counter / jump targets / cvt length, and
 //! the maxp-declared glyph sizes) a *structured* family sweeps the relevant count across the capacity —
@@ -1055,7 +1055,7 @@ pub fn bounds() -> Value {
     json!({
         "cffstems": {"formats": ["cff", "cff2"], "dirs": STEM_DIRS, "modes": STEM_MODES, "layouts": STEM_LAYOUTS,
             "pairs_n": "0..=110 and 200 (ordered); 90..=100 (overlapping, unsorted)", "ghost_hints": "0..=3, widths -20/-21",
-            "placements": PLACEMENTS, "hinted_ppem": [13.5, 1000.0], "capacities": "hint map 96 edges, 96 stem hints, 12 mask bytes, 48 operands per stem operator"},
+            "placements": PLACEMENTS, "hinted_ppem": [13.5, 1000.0], "capacities": "hint map 192 edges (96 stem pairs; 96 edges before fix 3a05afb), 96 stem hints, 12 mask bytes, 48 operands per stem operator"},
         "cffmisc": {"operand_counts": "stack limit (48 cff / 513 cff2) -2..=+2 before every operator", "subr_chain_depths": "8..=12 local/global/alternating (limit 10)", "seac_endchar": "bchar, achar in {0,1,65,255}, with and without width"},
         "cff2blend": {"region_counts_of_the_large_store": BLEND_REGION_COUNTS, "capacity": "16 precomputed blend scalars", "charstrings": BLEND_CHARSTRINGS,
             "private_dict": BLEND_PRIVATE, "deltas_per_value": "regions -1 / = / +1", "stores": "ivd0 = N regions, ivd1 = 1 region, ivd2 = N regions", "locations": ["default", "wght +0.5"]},
